@@ -85,6 +85,22 @@ def interleave(rng, schemas):
         d42.schema.list(d42.schema.int).__accept__(g)
     except Exception:
         pass
+    # calls that fail half-way (an element that cannot be generated, a refused substitution or declaration) must not
+    # leave anything behind in the shared generator / substitutor either
+    S = d42.schema
+    for thunk in (lambda: d42.fake(S.list(S.str.regex("\\s")).len(2)),
+                  lambda: d42.fake(S.list(S.int.min(5).max(1)).len(1, 3)),
+                  lambda: d42.fake(S.dict({"a": S.list(S.list(S.str.regex("(?=a)b")).len(1)).len(1)})),
+                  lambda: d42.fake(S.list([S.int, S.str.regex("\\Sx")])),
+                  lambda: d42.fake(S.any(S.list(S.str.regex("(a)\\1")).len(1))),
+                  lambda: d42.substitute(S.dict({"a": S.dict({"b": S.int, ...: ...})}), {"a": {"zz": 1}}),
+                  lambda: d42.substitute(S.list(S.int), [1, "x"]),
+                  lambda: S.int.min(3).max(1),
+                  lambda: d42.validate_or_fail(S.list(S.int), ["x"])):
+        try:
+            thunk()
+        except Exception:
+            pass
     for sch in schemas[:3]:
         try:
             v = d42.fake(sch)
@@ -93,6 +109,27 @@ def interleave(rng, schemas):
             d42.substitute(sch, v)
         except Exception:
             pass
+
+
+def neutral(d42, schemas, i):
+    """Operations that draw nothing, run between the fake() calls of the second pass only: building further facade
+    objects (Random is a stateless facade over the global state; constructing one must not touch the seed),
+    printing, validating and substituting."""
+    from d42.generation import Generator, Random, RegexGenerator
+    try:
+        Random()
+        Generator(Random(), RegexGenerator(Random()))
+        RegexGenerator(Random(), max_repeat=5)
+        sch = schemas[i - 1] if i else schemas[-1]
+        repr(sch)
+        d42.validate(sch, i)
+        sch == i
+        try:
+            d42.substitute(sch, [i])
+        except Exception:
+            pass
+    except Exception:
+        pass
 
 
 def main(argv):
@@ -130,7 +167,9 @@ def main(argv):
                 # re-seed through a *second* Random instance: the state is global
                 Random().set_seed(k)
             vals = []
-            for sch in schemas:
+            for i, sch in enumerate(schemas):
+                if p == 1:
+                    neutral(d42, schemas, i)
                 try:
                     vals.append(enc(d42.fake(sch)))
                 except Exception as e:  # noqa
